@@ -47,7 +47,7 @@ def cases(tier, seed):
     for k, t in enumerate(tables):
         # row labels of the data frame: 0..n-1, shifted, or a permutation (the table itself is in order either way)
         yield "ext.binsize", {"table": t, "categorical": [True, False, "lexical", False][k % 4], "index": ["default", "offset", "sorted"][k % 3],
-                              "names": ["usual", "unsorted"][(k // 2) % 2]}
+                              "names": ["usual", "unsorted"][(k // 2) % 2], "prior_fixed": gen.feat(201, k)("prior", 3) == 1}
 
 
 def run(tier, seed, only_case=None):
